@@ -368,7 +368,7 @@ class Tr:
             # try: ode.step()  except RuntimeWarning ...: <logging>; break
             if len(st.body) == 1 and isinstance(st.body[0], ast.Expr) and \
                     self.lv(st.body[0].value) == "ode.step()" and len(st.handlers) == 1 \
-                    and self.lv(st.handlers[0].type) == "RuntimeWarning" and \
+                    and _handler_ok(st.handlers[0].type) and \
                     not st.orelse and not st.finalbody and "ode" in self.state:
                 h = self.child().block(st.handlers[0].body, "st", brk)
                 if h != brk:
@@ -381,6 +381,19 @@ class Tr:
         if isinstance(st, ast.While):
             err(st, "nested while")
         err(st, "statement")
+
+
+STEP_FAILURES = {"RuntimeWarning", "LinAlgError", "np.linalg.LinAlgError",
+                 "numpy.linalg.LinAlgError", "scipylinalg.LinAlgError",
+                 "scipy.linalg.LinAlgError", "scipylinalg.LinAlgWarning"}
+
+
+def _handler_ok(ty):
+    """the handler around ode.step() catches failures of the step only (model: rk_step = None)"""
+    if ty is None:
+        return False
+    names = ty.elts if isinstance(ty, ast.Tuple) else [ty]
+    return bool(names) and all(ast.unparse(n) in STEP_FAILURES for n in names)
 
 
 def _has(node, kind):
